@@ -31,7 +31,7 @@ TECHNIQUE = ('Hypothesis-generated contracting linear circular systems '
              'plugin in every cycle cell: trace invariants (passes <= '
              'iterations, last-pass delta <= tolerance) and the q/(1-q) '
              'error bound; differential iterative-vs-plain on generated '
-             'acyclic workbooks x set_value histories')
+             'acyclic workbooks x set_value histories; cycles through plain formulas, SUMPRODUCT/SUM over the cycle range and OFFSET/INDIRECT link cells')
 LEVEL_TEXT = ('Exploration (bounded safety, no liveness claim): sampled '
               'systems of 1..5 cells with ||A||inf <= q in {0.1..0.9}, '
               'written directly and through SUM/SUMPRODUCT over ranges that '
